@@ -4,7 +4,7 @@ the total-charge clause. Block values are not decided."""
 import ast
 
 from ..cfg import CFG
-from ..core import (AnalysisError, assigned_targets, body_nodes, call_name, dotted, is_self_attr,
+from ..core import (phase_helpers, AnalysisError, assigned_targets, body_nodes, call_name, dotted, is_self_attr,
                     key_text, names_in, parent, root_name, stmts_of, unparse)
 
 NPC = 'tenpy/linalg/np_conserved.py'
@@ -295,8 +295,9 @@ def check_flag_l(prog, rep, prop='C02'):
     for rel in (CH, NPC):
         m = prog.module(rel)
         rep.unit(m)
+        ctor_helpers = phase_helpers(m, CONSTRUCTORS)   # e.g. a helper extracted from __init__
         for q, f in m.functions.items():
-            if f.name in CONSTRUCTORS:
+            if f.name in CONSTRUCTORS or f.name in ctor_helpers:
                 continue
             writes = []  # (stmt, X)
             for st in stmts_of(f):
